@@ -164,6 +164,11 @@ def errors%(i)d(d, key, default=None):
         return getattr(d, "%(word)s", default)
 
 
+def kwmerge%(i)d(f, a, b, *rest):
+    # the first merged keyword dict of the module: a literal part (duplicate check) and a mapping part
+    return f(*rest, **a, %(word)s=%(k)d, **b), dict(a, **b), {**a, "%(word)s": 1, **b}
+
+
 def with_stmt%(i)d(cm, *args, **kwargs):
     with cm as f, cm:
         return f.read(*args, **kwargs), [a for a in args if a], kwargs.get("%(word)s")
